@@ -23,7 +23,7 @@ import (
 
 func init() { register("C15", "exploration", checkC15) }
 
-const entryTraceCfg = `CONSTANTS GuardPackage = TRUE GuardImportPath = TRUE
+const entryTraceCfg = `CONSTANTS GuardPackage = TRUE GuardImportPath = TRUE GuardPackageFile = TRUE
 INIT TInit
 NEXT TNext
 INVARIANTS Conforms NeverPanics
@@ -93,7 +93,7 @@ func c15Run(src []byte) []c15Obs {
 		default:
 			o.Parse = "tree"
 		}
-		if f != nil && entry == "Parse+imports" {
+		if f != nil && (entry == "Parse+imports" || entry == "ParseDir+imports") {
 			var buf bytes.Buffer
 			var perr error
 			if msg := guard(func() {
@@ -136,26 +136,36 @@ func c15Run(src []byte) []c15Obs {
 	one("Parse+imports", func() (*dst.File, error) {
 		return decorator.NewDecoratorWithImports(token.NewFileSet(), "example.com/p", goast.New()).Parse(src)
 	})
-	one("ParseDir", func() (*dst.File, error) {
-		dir, err := os.MkdirTemp("", "dstv-c15-")
-		if err != nil {
-			return nil, err
-		}
-		defer os.RemoveAll(dir)
-		if err := os.WriteFile(filepath.Join(dir, "x.go"), src, 0644); err != nil {
-			return nil, err
-		}
-		pkgs, err := decorator.ParseDir(token.NewFileSet(), dir, nil, 0)
-		if err != nil {
-			return nil, err
-		}
-		for _, p := range pkgs {
-			for _, f := range p.Files {
-				return f, nil
+	parseDir := func(imports bool) func() (*dst.File, error) {
+		return func() (*dst.File, error) {
+			dir, err := os.MkdirTemp("", "dstv-c15-")
+			if err != nil {
+				return nil, err
 			}
+			defer os.RemoveAll(dir)
+			if err := os.WriteFile(filepath.Join(dir, "x.go"), src, 0644); err != nil {
+				return nil, err
+			}
+			var pkgs map[string]*dst.Package
+			if imports {
+				// the directory entry point of a decorator with import resolution
+				pkgs, err = decorator.NewDecoratorWithImports(token.NewFileSet(), "example.com/p", goast.New()).ParseDir(dir, nil, 0)
+			} else {
+				pkgs, err = decorator.ParseDir(token.NewFileSet(), dir, nil, 0)
+			}
+			if err != nil {
+				return nil, err
+			}
+			for _, p := range pkgs {
+				for _, f := range p.Files {
+					return f, nil
+				}
+			}
+			return nil, fmt.Errorf("no file")
 		}
-		return nil, fmt.Errorf("no file")
-	})
+	}
+	one("ParseDir", parseDir(false))
+	one("ParseDir+imports", parseDir(true))
 	return out
 }
 
@@ -332,23 +342,28 @@ var c15Fixed = [][]byte{
 func checkC15(c *Ctx) {
 	c.Assume("go/parser classifies each input (no file / no package clause / partial file / ok) independently of dst")
 	// (M) the entry-point machine: panic state unreachable with the package guard, reachable without
-	ok, err := RunTLC(TLCRun{Module: "Entry", Workers: 2, Timeout: 5 * time.Minute, Cfg: "CONSTANTS GuardPackage = TRUE GuardImportPath = TRUE\nINIT Init\nNEXT Next\nINVARIANTS NoPanic NoPackageIsError\nCHECK_DEADLOCK FALSE\n"})
+	ok, err := RunTLC(TLCRun{Module: "Entry", Workers: 2, Timeout: 5 * time.Minute, Cfg: "CONSTANTS GuardPackage = TRUE GuardImportPath = TRUE GuardPackageFile = TRUE\nINIT Init\nNEXT Next\nINVARIANTS NoPanic NoPackageIsError\nCHECK_DEADLOCK FALSE\n"})
 	if err != nil || !ok.OK() {
 		c.Infra("TLC model check of Entry failed: " + errText(ok, err))
 		return
 	}
 	c.TLC(ok)
-	bad, err := RunTLC(TLCRun{Module: "Entry", Workers: 2, Timeout: 5 * time.Minute, Cfg: "CONSTANTS GuardPackage = FALSE GuardImportPath = TRUE\nINIT Init\nNEXT Next\nINVARIANTS NoPanic\nCHECK_DEADLOCK FALSE\n"})
+	bad, err := RunTLC(TLCRun{Module: "Entry", Workers: 2, Timeout: 5 * time.Minute, Cfg: "CONSTANTS GuardPackage = FALSE GuardImportPath = TRUE GuardPackageFile = TRUE\nINIT Init\nNEXT Next\nINVARIANTS NoPanic\nCHECK_DEADLOCK FALSE\n"})
 	if err != nil || bad.Violated == "" {
 		c.Infra("TLC did not find the missing-package panic state without the guard: " + errText(bad, err))
 		return
 	}
-	bad2, err := RunTLC(TLCRun{Module: "Entry", Workers: 2, Timeout: 5 * time.Minute, Cfg: "CONSTANTS GuardPackage = TRUE GuardImportPath = FALSE\nINIT Init\nNEXT Next\nINVARIANTS NoPanic\nCHECK_DEADLOCK FALSE\n"})
+	bad2, err := RunTLC(TLCRun{Module: "Entry", Workers: 2, Timeout: 5 * time.Minute, Cfg: "CONSTANTS GuardPackage = TRUE GuardImportPath = FALSE GuardPackageFile = TRUE\nINIT Init\nNEXT Next\nINVARIANTS NoPanic\nCHECK_DEADLOCK FALSE\n"})
 	if err != nil || bad2.Violated == "" {
 		c.Infra("TLC did not find the malformed-import-path panic state without the guard: " + errText(bad2, err))
 		return
 	}
-	c.Set("model", "Entry.tla: NoPanic holds with the package-clause and import-path guards (4 parser classes x 4 entry points, malformed import paths) and is violated without either")
+	bad3, err := RunTLC(TLCRun{Module: "Entry", Workers: 2, Timeout: 5 * time.Minute, Cfg: "CONSTANTS GuardPackage = TRUE GuardImportPath = TRUE GuardPackageFile = FALSE\nINIT Init\nNEXT Next\nINVARIANTS NoPanic\nCHECK_DEADLOCK FALSE\n"})
+	if err != nil || bad3.Violated == "" {
+		c.Infra("TLC did not find the package-without-file panic state without the guard: " + errText(bad3, err))
+		return
+	}
+	c.Set("model", "Entry.tla: NoPanic holds with the package-clause, import-path and package-file guards (4 parser classes x 5 entry points, malformed import paths) and is violated without any one of them")
 
 	nFiles, perFile := 30, 24
 	if !c.Quick() {
